@@ -153,6 +153,20 @@ fn history<S: ShortGroupSignatureScheme>(em: &mut Emitter, rng: &mut Rng, suite:
                         trace.push(format!("revoke {}", batch.iter().map(|i| holders[*i].id.clone()).collect::<Vec<_>>().join(",")));
                         epochs.push(Epoch { old, new: issuer.revocation_registry.value, dels, coefs });
                         checkpoint = true;
+                        // a publication epoch in which nobody was revoked (issuance-only period, `revoke_credentials(&[])`):
+                        // the value does not move and the published update data is empty
+                        if rng.chance(1, 3) {
+                            let cur = issuer.revocation_registry.value;
+                            let r0 = call(|| issuer.revoke_credentials(&[]));
+                            let (same, none) = cur.update(&issuer.revocation_key, &[], &[]);
+                            if r0.is_ok() && issuer.revocation_registry.value.0 != cur.0 {
+                                em.violation("c06:empty-revocation-moves-value", format!("{}: revoking nobody changed the registry value", suite), json!({"suite": suite, "trace": trace}));
+                            } else if same.0 == cur.0 {
+                                em.count(&format!("empty-epoch:{}", r0.class()));
+                                trace.push("empty-epoch".to_string());
+                                epochs.push(Epoch { old: cur, new: same, dels: vec![], coefs: none });
+                            }
+                        }
                     }
                     o => em.violation("c06:revoke-failed", format!("{}: revoking active identifiers failed ({})", suite, o.class()), json!({"suite": suite, "trace": trace})),
                 }
@@ -241,9 +255,9 @@ fn history<S: ShortGroupSignatureScheme>(em: &mut Emitter, rng: &mut Rng, suite:
                 let mut held = h.cred.revocation_handle;
                 let w2 = held.multi_batch_update(y, &deltas);
                 cands.push(("public-multi".into(), w2, None, !h.revoked));
-                if since.iter().all(|e| e.dels.len() == 1) {
+                if since.iter().all(|e| e.dels.len() <= 1) {
                     let mut w3 = h.cred.revocation_handle;
-                    for e in since {
+                    for e in since.iter().filter(|e| !e.dels.is_empty()) {
                         w3 = w3.update(y, e.old, e.new, &[], &e.dels);
                     }
                     cands.push(("public-single".into(), w3, None, !h.revoked));
